@@ -34,6 +34,15 @@ Theorem C16_one_message : forall l sv, stream (drun false (l ++ [DFlush])) = Som
 Proof. exact one_flush_converges. Qed.
 Print Assumptions C16_one_message.
 
+(* end to end: whatever happened before, after any sequence of dependency responses (each: the added services are
+   subscribed, then the removed ones unsubscribed - the wrapped hook of StreamDependencies) and one flush on a live
+   stream, the server has been told to watch exactly the dependency set those responses leave *)
+Theorem C16_dependency_responses : forall l0 rs sv,
+  stream (drun false (l0 ++ dep_history rs ++ [DFlush])) = Some sv ->
+  same_set sv (fold_left dep_apply rs (desired (drun false l0))).
+Proof. exact dependency_responses. Qed.
+Print Assumptions C16_dependency_responses.
+
 (* the code as it was: the 17th change with no stream blocks holding the lock and the reconnect never happens;
    an unsubscribe and a subscribe of one service in one batch lose their order *)
 Theorem C16_blocks_holding_the_lock_refuted :
